@@ -91,6 +91,9 @@ FreshKey ==
 TInitState ==
   /\ IsEvent("init_state") /\ ~Silent
   /\ Chk("init_state_only_at_construction", l <= K /\ Ev.k = l)
+  \* every chain's kernel states are initialised from that chain's own initial model state
+  /\ Chk("kernel_state_initialised_from_the_chains_own_model_state",
+         ("chain_seen" \in DOMAIN Ev /\ Ev.chain_seen # -7) => Ev.chain_seen = Hdr.init_chain)
   /\ FreshKey
   /\ UNCHANGED <<mvars, evars, params>> /\ Step
 
